@@ -379,3 +379,28 @@ def r6_pi_count(ck, w):
         guards = mc.guard_between(b, gp, tg[0][0])
         ck.record('C03.R6', f'pi-count:{nid}', bool(guards), 'pi.len() != vk.nb_public_inputs → Err dominates verification',
                   f'{nid}: the public-input count is no longer compared with vk.nb_public_inputs before verification', reach.loc(b))
+    pi_count_exact(ck, w, 'C03.R6')
+
+
+def pi_count_exact(ck, w, rule):
+    """the public-input count guard is an (in)equality, not an ordering"""
+    from ..core import peel, expr_str
+    n = 0
+    for nid in ('midnight_zk_stdlib::verify', 'midnight_zk_stdlib::batch_verify'):
+        f = w.fn(nid, required=False)
+        if f is None:
+            ck.bad(rule, f'pi-count-exact:{nid}:anchor', f'{nid} not found (anchor)')
+            continue
+        for x in walk(f['body']):
+            if x.get('k') != 'bin' or x.get('op') not in ('==', '!=', '<', '<=', '>', '>='):
+                continue
+            sides = [peel(x['a']), peel(x['b'])]
+            has_len = any(s_.get('k') == 'mcall' and s_.get('m') == 'len' for s_ in sides)
+            has_cnt = any(s_.get('k') == 'field' and s_.get('n') == 'nb_public_inputs' for s_ in sides)
+            if has_len and has_cnt:
+                n += 1
+                ck.record(rule, f'pi-count-exact:{nid}', x['op'] in ('!=', '=='), f'`{expr_str(x)[:60]}` is an exact comparison',
+                          f'{nid}: the public-input count is compared with `{x["op"]}` (`{expr_str(x)[:70]}`): the verifier must insist on EXACTLY the number of raw '
+                          f'public inputs recorded at key generation — instance rows no copy constraint touches are unconstrained, so a longer vector verifies',
+                          hirq.fn_loc(f, x))
+    ck.floor(rule, 'public-input count comparisons', n, 2)
